@@ -47,7 +47,7 @@ def o12_1(tier):
     return out
 
 
-@obligation("O12.3", ["C12"], [TS + "create_mapping"],
+@obligation("O12.3", ["C12", "C03"], [TS + "create_mapping"],
             "create_mapping: keeps the user's pairs, adds one entry per interface end point of the earlier frame, every value is None or an interface end "
             "point of the later frame, no two keys share a non-None target; a bounding-box shape change above 10% of the extent raises DifferentTissueException",
             tier="Pn")
@@ -63,11 +63,14 @@ def o12_3(tier):
             bel.append([ends[k], others[k % len(others)], ends[k + 1]])
         return ctx.alloc(F, vertices=vd, big_edges_list=bel, border_vertices=[], cells=ctx.dict())
 
-    def mk(guess, grow, zero_id=False):
+    def mk(guess, grow, zero_id=False, shared_ids=False):
         def h(ctx):
             T = cls(ctx, "forsys.time_series", "TimeSeries")
             e0, o0 = [3, 8, 5], [40, 41]
             e1, o1 = ([12, 0, 11] if zero_id else [12, 17, 11]), [50, 51]        # zero_id: a vertex numbered 0 in the later frame
+            if shared_ids:
+                e1 = [5, 3, 8]                                                     # the later frame re-uses the earlier frame's numbers for OTHER junctions
+            answered = {}
             c0 = {i: (ctx.real(f"a{i}x"), ctx.real(f"a{i}y")) for i in e0 + o0}
             c1 = {i: (ctx.real(f"b{i}x"), ctx.real(f"b{i}y")) for i in e1 + o1}
             t0, t1 = frame(ctx, "a", e0, o0, c0), frame(ctx, "b", e1, o1, c1)
@@ -83,7 +86,9 @@ def o12_3(tier):
                 calls.append(choice)
                 for j, vid in enumerate(free):
                     if ctx.it.decide(choice == j) if ctx.mode == "sym" else (choice == j):
+                        answered.setdefault(ctx.get(v0, "id"), []).append(vid)
                         return ctx.item(pool, vid)
+                answered.setdefault(ctx.get(v0, "id"), []).append(None)
                 return None
             ctx.stub(TS + "find_best", fb, "callee contract proved as O12.1 (the choice among free candidates is left arbitrary)")
             if ctx.mode != "sym":
@@ -121,5 +126,10 @@ def o12_3(tier):
             ctx.ensure(all(v is None or v in e1 or v in [gv for _, gv in guess] for v in vals), "values are None or interface end points of the later frame")
             nn = [v for v in vals if v is not None]
             ctx.ensure(len(nn) == len(set(nn)), "no two vertices are sent to the same target")
+            for k in e0:
+                if k not in [gk for gk, _ in guess]:
+                    ctx.ensure(answered.get(k) is not None and len(answered[k]) == 1 and ctx.item(res, k) == answered[k][0],
+                               f"end point {k}: linked to exactly what the proximity search (find_best) answered for it - the vertex numbers play no role")
         return h
-    return [("no-guess", mk([], False)), ("guess-3->17", mk([(3, 17)], False)), ("guess-3->0,vertex-id-0", mk([(3, 0)], False, True)), ("no-guess,vertex-id-0", mk([], False, True))]
+    return [("no-guess", mk([], False)), ("guess-3->17", mk([(3, 17)], False)), ("guess-3->0,vertex-id-0", mk([(3, 0)], False, True)), ("no-guess,vertex-id-0", mk([], False, True)),
+            ("no-guess,later-frame-reuses-the-numbers", mk([], False, shared_ids=True))]
